@@ -9,9 +9,9 @@ import (
 	"encoding/json"
 	"fmt"
 	realos "os"
-	realruntime "runtime"
 	"os/exec"
 	"path/filepath"
+	realruntime "runtime"
 	"sort"
 	"strconv"
 	"strings"
@@ -87,6 +87,7 @@ type Result struct {
 	Outcome    string         `json:"outcome"` // ok | violation | harness_error
 	Violations []Violation    `json:"violations,omitempty"`
 	Cross      []Violation    `json:"cross,omitempty"` // failures of other properties' always-on invariants
+	Known      []Violation    `json:"known,omitempty"` // violations matching an open known finding (the run goes on)
 	HarnessErr string         `json:"harness_error,omitempty"`
 	Hash       string         `json:"hash"`
 	Steps      uint64         `json:"steps"`
@@ -137,6 +138,18 @@ type World struct {
 
 var W *World
 
+// knownClasses: "prop:class" pairs of open known findings (from SIM_KNOWN); such violations are
+// recorded but do not end the run, so that the rest of the run is still checked.
+var knownClasses = func() map[string]bool {
+	m := map[string]bool{}
+	for _, k := range strings.Split(realos.Getenv("SIM_KNOWN"), ",") {
+		if k != "" {
+			m[k] = true
+		}
+	}
+	return m
+}()
+
 func (w *World) now() time.Time    { return realtime.Now() }
 func (w *World) simT() string      { return fmt.Sprintf("%.3f", realtime.Since(w.start).Seconds()) }
 func (w *World) probe(name string) { w.res.Probes[name]++ }
@@ -150,6 +163,12 @@ func (w *World) logf(format string, a ...any) {
 func (w *World) violate(prop, class, format string, a ...any) {
 	v := Violation{Prop: prop, Class: class, Detail: fmt.Sprintf(format, a...), SimT: w.simT(), Step: w.S.Steps}
 	w.S.Trace("VIOLATION " + prop + " " + class + " " + v.Detail)
+	if knownClasses[prop+":"+class] {
+		if len(w.res.Known) < 50 {
+			w.res.Known = append(w.res.Known, v)
+		}
+		return
+	}
 	if prop == w.sc.Prop {
 		if len(w.res.Violations) < 20 {
 			w.res.Violations = append(w.res.Violations, v)
